@@ -1,0 +1,17 @@
+//go:build verif
+
+// Verification hooks (read-only): compiled only with -tags verif.
+
+package uniformdh
+
+import "fmt"
+
+// VerifConstants returns the package constants as the compiler evaluated them.
+func VerifConstants() map[string]string {
+	m := map[string]string{}
+	put := func(k string, v interface{}) { m[k] = fmt.Sprint(v) }
+	put("Size", Size)
+	put("modpStr", modpStr)
+	put("g", g)
+	return m
+}
